@@ -16,7 +16,7 @@
     [seeded] flag); the model follows the repaired code, the clause is now proved and the
     witness is kept as a regression case here and in the harness. *)
 From Coq Require Import Floats.
-From Srtla Require Import Base Constants LinkCc LinkCcP Run_C16 C16P LinkCcRttP.
+From Srtla Require Import Base Constants LinkCc LinkCcF LinkCcP Run_C16 C16P LinkCcRttP LinkCcFP.
 From Srtla Require FConstants.
 Local Open Scope Z_scope.
 
@@ -140,6 +140,18 @@ Theorem C16_loss_latch : forall s now i,
      f_lt (i_lewma i) FConstants.LOSS_DEGRADE_CLEAR = true) /\
   (l_high_since l' = l_high_since l \/ l_high_since l' = 0 \/ (l_high_since l = 0 /\ l_high_since l' = now)).
 Proof. exact loss_latch_step. Qed.
+
+(** Model fidelity.  The code computes the new target in f64 ([x as f64 * permille / 1000.0],
+    [min], [max], [+], [as u64]); [Model/LinkCc.v] uses integers with floor.  The literal f64
+    rendering of those expressions ([Model/LinkCcF.v]: [sane_observed_f], [next_target_f]) is
+    PROVED to give the same clamped observation and the same new target on every step of every
+    link satisfying the invariant (IEEE-754 round-to-nearest-even: the quotient by 1000.0 is
+    exact or at least 1/1000 - 2^-25 inside the unit interval above the integer quotient, and
+    the one further rounding moves it by at most 2^-25).  Depends on FloatAxioms + the
+    classical real-number axioms (allow-listed by name). *)
+Theorem C16_float_rendering_exact : forall s now i, core_inv (k_core s) ->
+  float_agrees s (link_step s now i) i = true.
+Proof. exact float_agrees_step. Qed.
 
 (** "for links that appear and disappear": after [tick_all] the controller tracks exactly the
     connections it was shown, each once. *)
